@@ -304,3 +304,199 @@ func hasDeferredRecover(f *ssa.Function) bool {
 	}
 	return false
 }
+
+// checkedValueRule: a checker validates the value it is handed.
+func checkedValueRule(R string) RuleFunc {
+	return func(c *core.Ctx) {
+		c.Rule(R, "every call of ValidateLiteralValue in the checker package validates a value derived from a PARAMETER of the calling function (the lexeme of the example being checked), never the value stored in the checker's own node (`c.node.Value()`): a type's rules are applied to whatever example refers to the type, and the type's own example trivially satisfies them")
+		c.Floor(R, 2)
+		n := 0
+		for _, cs := range c.P.Calls() {
+			if core.Rel(cs.Pkg.PkgPath) != "notations/jschema/checker" || core.FullName(core.Callee(cs.Pkg, cs.Call)) != "notations/jschema/checker.ValidateLiteralValue" || len(cs.Call.Args) != 2 || cs.Decl == nil {
+				continue
+			}
+			n++
+			fn := core.DeclName(cs.Pkg, cs.Decl)
+			arg := core.ExprStr(cs.Call.Args[1])
+			fromParam := false
+			if cs.Decl.Type.Params != nil {
+				for _, f := range cs.Decl.Type.Params.List {
+					for _, nm := range f.Names {
+						if strings.HasPrefix(arg, nm.Name+".") || arg == nm.Name {
+							fromParam = true
+						}
+					}
+				}
+			}
+			c.Check(fromParam, R, core.F("%s:ValidateLiteralValue#%d", fn, n), c.P.Pos(cs.Call.Pos()), "ValidateLiteralValue(…, "+arg+") in "+fn, "the validated value is not taken from the function's parameter: the rule-set is applied to the type's own example instead of the example that refers to it")
+		}
+	}
+}
+
+// keyEncoderRule: decoded keys go through encoding/json on their way into an example.
+func keyEncoderRule(R string) RuleFunc {
+	return func(c *core.Ctx) {
+		c.Rule(R, "exampleBuilder.buildObjectKey encodes an ordinary (non-shortcut) key with encoding/json.Marshal(k.Key) and returns a slice of that result: no hand-written escaper (a loop over the runes that appends byte(r) truncates every non-ASCII character to one byte, so `{\"é\":1}` yields an example that is neither UTF-8 nor JSON)")
+		c.Floor(R, 1)
+		d := c.P.FindDecl("(*notations/jschema.exampleBuilder).buildObjectKey")
+		if d == nil {
+			c.Unresolved(R, "(*notations/jschema.exampleBuilder).buildObjectKey")
+			return
+		}
+		marshalVar, retOK, loop := "", false, false
+		ast.Inspect(d.Decl.Body, func(n ast.Node) bool {
+			ifs, ok := n.(*ast.IfStmt)
+			if !ok || !strings.Contains(core.ExprStr(ifs.Cond), "IsShortcut") {
+				return true
+			}
+			ast.Inspect(ifs.Body, func(m ast.Node) bool {
+				switch x := m.(type) {
+				case *ast.AssignStmt:
+					if len(x.Rhs) == 1 {
+						if call, ok := x.Rhs[0].(*ast.CallExpr); ok && core.FullName(core.Callee(d.Pkg, call)) == "encoding/json.Marshal" && len(call.Args) == 1 && strings.HasSuffix(core.ExprStr(call.Args[0]), ".Key") {
+							marshalVar = core.ExprStr(x.Lhs[0])
+						}
+					}
+				case *ast.RangeStmt, *ast.ForStmt:
+					loop = true
+				case *ast.ReturnStmt:
+					if len(x.Results) == 2 && marshalVar != "" && strings.HasPrefix(core.ExprStr(x.Results[0]), marshalVar+"[") && core.ExprStr(x.Results[1]) == "nil" {
+						retOK = true
+					}
+				}
+				return true
+			})
+			return false
+		})
+		c.Check(marshalVar != "" && retOK && !loop, R, "buildObjectKey:encoder", c.P.Pos(d.Decl.Pos()), "ordinary keys are encoded by encoding/json.Marshal and returned without their delimiters", core.F("the key is not (only) encoded by the JSON encoder (json.Marshal of the key: %v, its result returned: %v, own loop: %v)", marshalVar != "", retOK, loop))
+	}
+}
+
+// decodeOnceRule: a decoded string is never decoded again.
+func decodeOnceRule(R string) RuleFunc {
+	return func(c *core.Ctx) {
+		c.Rule(R, "no call of Bytes.Unquote() is applied to a string that is already decoded (taint: the result of Unquote and every field / parameter that stores it, e.g. ObjectNodeKey.Key and the key parameter of ObjectNode.AddKey): a key such as \"\\\"a\\\"\" (decoded: \"a\" with quotes) would lose its quotes and collide with the key a")
+		c.Floor(R, 1)
+		t := computeTaint(c)
+		n := 0
+		for _, cs := range c.P.Calls() {
+			if core.FullName(core.Callee(cs.Pkg, cs.Call)) != "(bytes.Bytes).Unquote" {
+				continue
+			}
+			rel := core.Rel(cs.Pkg.PkgPath)
+			if !(strings.HasPrefix(rel, "notations/jschema") || strings.HasPrefix(rel, "openapi")) {
+				continue
+			}
+			se, ok := cs.Call.Fun.(*ast.SelectorExpr)
+			if !ok {
+				continue
+			}
+			// receiver of the form bytes.NewBytes(x): look at x
+			inner := ast.Unparen(se.X)
+			if call, ok := inner.(*ast.CallExpr); ok && len(call.Args) == 1 && strings.Contains(core.ExprStr(call.Fun), "NewBytes") {
+				n++
+				fn := core.DeclName(cs.Pkg, cs.Decl)
+				w := t.exprTainted(cs.Pkg, call.Args[0])
+				c.Check(w == "", R, core.F("%s:Unquote#%d", fn, n), c.P.Pos(cs.Call.Pos()), "Unquote() of NewBytes("+core.ExprStr(call.Args[0])+") in "+fn, "the argument is already decoded ("+w+"): it is decoded twice")
+			}
+		}
+		if n == 0 {
+			c.OK(R, "no-requote", "-", "no Unquote() of a string wrapped again into Bytes")
+		}
+	}
+}
+
+// asciiBlankRule: the language's own byte classes, not Unicode's.
+func asciiBlankRule(R string) RuleFunc {
+	return func(c *core.Ctx) {
+		c.Rule(R, "the scanners, the loader and the byte helpers classify and trim schema text with the module's own byte predicates (IsBlank: SP TAB CR LF; `c < 0x20`), never with Unicode classes: no call of strings.TrimSpace, bytes.TrimSpace, strings.Fields, unicode.IsSpace, unicode.IsControl, unicode.IsDigit, unicode.IsLetter in those packages. Applied to single bytes converted to runes these treat 0x85/0xA0 (continuation bytes of à, Å, х, €) as blanks or controls; applied to strings they strip NBSP and other non-ASCII white space that belongs to a note")
+		c.Floor(R, 1)
+		banned := map[string]bool{"strings.TrimSpace": true, "bytes.TrimSpace": true, "strings.Fields": true, "bytes.Fields": true, "unicode.IsSpace": true, "unicode.IsControl": true, "unicode.IsDigit": true, "unicode.IsLetter": true, "unicode.IsPrint": true}
+		n := 0
+		for _, cs := range c.P.Calls() {
+			rel := core.Rel(cs.Pkg.PkgPath)
+			if !(rel == "notations/jschema/scanner" || rel == "notations/jschema/loader" || rel == "rules/enum" || rel == "formats/json" || rel == "bytes" || rel == "json" || rel == "notations/regex" || rel == "notations/jschema/ischema") {
+				continue
+			}
+			name := core.FullName(core.Callee(cs.Pkg, cs.Call))
+			if !banned[name] {
+				continue
+			}
+			n++
+			fn := core.DeclName(cs.Pkg, cs.Decl)
+			if r, ok := map[string]string{
+				"notations/jschema/loader.addORShortcut:strings.TrimSpace": "trims the type names between the pipes of `@a | @b`; the scanner admits only SP and TAB between a name and the pipe (stateTypesShortcutBeforePipe/AfterPipe panic on anything else), so no non-ASCII white space can reach this call",
+			}[fn+":"+name]; ok {
+				c.Tabled(R, fn+":"+name, c.P.Pos(cs.Call.Pos()), name+" in "+fn, r)
+				continue
+			}
+			c.Bad(R, fn+":"+name, c.P.Pos(cs.Call.Pos()), name+" in "+fn, "a Unicode class is applied to schema text / single bytes: non-ASCII characters next to a blank or at the end of a note are cut, or bytes of multi-byte characters are taken for blanks/controls")
+		}
+		if n == 0 {
+			c.OK(R, "none", "-", "no Unicode-class helper in the scanning/loading packages")
+		}
+	}
+}
+
+// onceCaptureRule: what a once computes does not depend on the arguments of the call that happens to be first.
+func onceCaptureRule(R string) RuleFunc {
+	return func(c *core.Ctx) {
+		c.Rule(R, "a closure handed to ErrOnce.Do / ErrOnceWithValue.Do / sync.Once.Do captures nothing but the receiver of the enclosing method (and package-level state): if it captured a parameter, the cached result would depend on the arguments of whichever call came first (Example() compiling without the recursion check, a later Check() returning that cached verdict)")
+		c.Floor(R, 4)
+		oc := onceClosures(c)
+		var fs []*ssa.Function
+		for f := range oc {
+			fs = append(fs, f)
+		}
+		sortFuncs(fs)
+		for _, f := range fs {
+			if !c.P.FuncInScope(f) || strings.Contains(core.FuncName(f), "internal/sync.") {
+				continue
+			}
+			parent := f.Parent()
+			bad := ""
+			for _, fv := range f.FreeVars {
+				ok := false
+				if parent != nil && len(parent.Params) > 0 && parent.Signature.Recv() != nil && fv.Name() == parent.Params[0].Name() {
+					ok = true
+				}
+				if !ok {
+					bad = fv.Name()
+				}
+			}
+			c.Check(bad == "", R, core.FuncName(f), c.P.Pos(f.Pos()), "once closure "+core.FuncName(f)+" captures only the receiver", "the closure captures `"+bad+"`: the cached result depends on the arguments of the first call")
+		}
+	}
+}
+
+// expParseRule: decimal texts are parsed in base 10.
+func expParseRule(R string) RuleFunc {
+	return func(c *core.Ctx) {
+		c.Rule(R, "no call of strconv.ParseInt / ParseUint in scope uses a base other than the constant 10 (base 0 reads a leading 0 as an octal prefix: the exponent `e010` becomes 8, `e08` is refused), and the exponent of a number is parsed by the module's own Bytes.ParseInt")
+		c.Floor(R, 1)
+		n := 0
+		for _, cs := range c.P.Calls() {
+			name := core.FullName(core.Callee(cs.Pkg, cs.Call))
+			if name != "strconv.ParseInt" && name != "strconv.ParseUint" || len(cs.Call.Args) != 3 {
+				continue
+			}
+			n++
+			fn := core.DeclName(cs.Pkg, cs.Decl)
+			v := core.ConstOf(cs.Pkg, cs.Call.Args[1])
+			c.Check(v != nil && v.ExactString() == "10", R, core.F("%s:%s#%d", fn, name, n), c.P.Pos(cs.Call.Pos()), name+"(…, "+core.ExprStr(cs.Call.Args[1])+", …) in "+fn, "the base is not the constant 10: decimal texts with leading zeros are read as octal or refused")
+		}
+		d := c.P.FindDecl("(*json.scanner).setExp")
+		if d == nil {
+			c.Unresolved(R, "(*json.scanner).setExp")
+			return
+		}
+		uses := false
+		ast.Inspect(d.Decl.Body, func(m ast.Node) bool {
+			if call, ok := m.(*ast.CallExpr); ok && core.FullName(core.Callee(d.Pkg, call)) == "(bytes.Bytes).ParseInt" {
+				uses = true
+			}
+			return true
+		})
+		c.Check(uses, R, "setExp:ParseInt", c.P.Pos(d.Decl.Pos()), "setExp parses the exponent with Bytes.ParseInt", "the exponent is parsed by something else than the module's decimal parser (whose rejection causes are checked by C13.parse)")
+	}
+}
